@@ -347,7 +347,7 @@ SUBS = [
         rule="k in 0..4, n_paths 1..24, n_times 1..3, optimiser default/class/instance in {SGD, Adam, Adadelta, RMSprop}, validation "
              "on/off, models lazy MLP / MLP / Linear+Dropout / LazyLinear+Dropout / recurrent+Dropout, 4 criteria, 2 hedge lists, "
              "default or given init_state, hedger left in train or eval mode beforehand. Non-trivial: k>=2 and (dropout or validation).",
-        strategy=lambda tier: fit_case(), examples={"quick": 640, "thorough": 6400}, fuzz={"thorough": 120.0}),
+        strategy=lambda tier: fit_case(), examples={"quick": 1280, "thorough": 12800}, fuzz={"thorough": 120.0}),
     Sub("bad_optimizer", check_bad_optimizer,
         rule="non-optimiser arguments (object, function, nn.Module class, str, None, dict) must raise TypeError and leave parameters unchanged",
         strategy=lambda tier: bad_optimizer_case(), examples={"quick": 48, "thorough": 96}),
